@@ -103,6 +103,20 @@ def stage_irregular(d, k, grid, holes, rate, il=(10, 2), xl=(5, 3), nz=40, seed=
     return p, T
 
 
+def stage_fixture(d, k, name):
+    """an archived file written by an older release: the truth is what its own header says under ITS release's conventions
+    (independent parse at the published byte positions); only the files DERIVED from it are judged"""
+    import shutil
+    p = os.path.join(d, f'f{k}.sgz')
+    shutil.copy(os.path.join(inputs.FIXTURES, name), p)
+    F, meta = sgzfile.descriptor(p, session.fields())
+    T = truth(F['dim'], F['n'], F['b'], meta['rate'], F['ntr'], (F['il']['s'], F['il']['d']), (F['xl']['s'], F['xl']['d']),
+              int(meta['z0']), int(meta['dz'] * 1000), source_format=meta['H']['source_format'], check_version=False)
+    T['F'] = dict(T['F'], hblk=F['hblk'])
+    T['nojudge'] = True
+    return p, T
+
+
 def stage_crop(d, k, src, T, box):
     """box: ((i0,i1),(x0,x1),(z0,z1)) by index; truth = aligned outward to the blockshape and clipped"""
     from seismic_zfp.cropping import SgzCropper
@@ -128,6 +142,7 @@ def stage_crop(d, k, src, T, box):
     T2['xl0'] = T['xl0'] + lo[1] * T['xlstep']
     T2['z0'] = T['z0'] + lo[2] * T['dz_us'] // 1000
     T2['check_version'] = False
+    T2.pop('nojudge', None)
     return p, T2
 
 
@@ -140,6 +155,7 @@ def stage_reblock(d, k, src, T):
     T2 = dict(T)
     T2['F'] = dict(T['F'], b=[64, 64, 4])
     T2['check_version'] = False
+    T2.pop('nojudge', None)
     return p, T2
 
 
@@ -212,6 +228,16 @@ def chains(run):
     C.append(('numpy 16x16 (aligned footer) -> crop 8x8', [numpy((16, 16, 6), 16, (4, 4, -1), il=(1, 1), xl=(1, 1), extra=1), crop(((4, 12), (0, 8), None))]))
     C.append(('numpy 16x24 -> crop 8x16 (aligned footer)', [numpy((16, 24, 6), 16, (4, 4, -1), il=(1, 1), xl=(1, 1), extra=3), crop(((8, 16), (4, 20), None))]))
     C.append(('segy thorough 12x16 -> crop 8x16 -> crop 4x16', [segy((12, 16, 20), 16, None, 'thorough'), crop(((4, 12), None, None)), crop(((0, 4), None, None))]))
+    # files written by older releases (other footer stride, no trace-count field, interval in ms) through today's cropper / re-blocker:
+    # the derived file must be self-consistent under the conventions of the version IT records
+    def fixture(name):
+        return lambda d, k, pp, pT: stage_fixture(d, k, name)
+    for name, box in (('small_4bit.sgz', ((0, 4), None, None)), ('small_8bit-8x8.sgz', (None, (0, 5), None)), ('small-dec_8bit.sgz', ((0, 3), (0, 3), None)),
+                      ('padding/padding_6x7.sgz', ((4, 6), (0, 4), None)), ('small_8bit.sgz', ((0, 4), (4, 5), None)),
+                      ('small_v0.0.1.sgz', (None, None, (0, 50))), ('padding/padding_8x8.sgz', ((0, 8), (4, 8), (0, 128)))):
+        C.append((f'fixture {name} -> crop', [fixture(name), crop(box)]))
+    C.append(('fixture small_2bit.sgz -> reblock', [fixture('small_2bit.sgz'), reblock()]))
+    C.append(('fixture small_2bit.sgz -> crop -> reblock', [fixture('small_2bit.sgz'), crop(((0, 4), None, None)), reblock()]))
     if not quick:
         for shape in [(3, 85, 6), (128, 3, 5), (2, 65, 5), (32, 4, 4), (13, 10, 70), (64, 2, 9)]:
             C.append((f'numpy{shape}', [numpy(shape, 8, (4, 4, -1), il=(2**20, 5), xl=(-2**20, 7), z0=-100, dz=0.5, extra=3)]))
@@ -285,6 +311,8 @@ def run(run):
             run.case(case)
             if 'error' in r:
                 run.fail('C03.writer-runs', case, r['error'], 'a file')
+                continue
+            if r['T'].get('nojudge'):
                 continue
             items.append({'T': r['T'], 'H': r['H']})
             index.append((case, r))
